@@ -38,6 +38,7 @@ import itertools
 import json
 import os
 import random
+import re
 from concurrent.futures import ThreadPoolExecutor
 
 from vlib import trace
@@ -392,7 +393,7 @@ class Decorated(_Rendered):
                 at = self.line_of[d["el"]] + d["k"]
                 ind = " " * (len(lines[at - 1]) - len(lines[at - 1].lstrip()) + 2)
                 if "arg" in d:                          # typed parameter in front of the step text: Given with <arg> own 1
-                    lines[at - 1] = lines[at - 1].replace("Given ", "Given with %s " % d["arg"], 1)
+                    lines[at - 1] = re.sub(r"^(\s*)(Given|When|Then|And|But) ", lambda m: "%s%s with %s " % (m.group(1), m.group(2), d["arg"]), lines[at - 1], count=1)
                     continue
                 if "table" in d:
                     t = d["table"]
